@@ -2,7 +2,8 @@
    Statements only; proofs are in Proofs/Caps.v. *)
 From Coq Require Import List NArith ZArith Bool.
 From Abasic Require Import Model.Bytes Model.Num Model.Token Model.Data Model.Lexer Gen.Tables
-     Model.State Model.Eval Model.Interp Proofs.Monad Proofs.Frames Proofs.StoreProofs Proofs.Caps.
+     Model.State Model.Eval Model.Interp Proofs.Monad Proofs.Frames Proofs.StoreProofs Proofs.Caps
+     Model.RustInt Gen.ArraysRs Proofs.ArraysTie.
 Import ListNotations.
 Local Open Scope nat_scope.
 
@@ -69,6 +70,49 @@ Theorem C16_loops_le_variables : forall s univ,
   caps_inv s -> incl (map lp_sym (loops s)) univ -> length (loops s) <= length univ.
 Proof. exact loops_bounded_by_variables. Qed.
 
+(* THE TIE TO arrays.rs BY TRANSLATION.  Gen/ArraysRs.v holds DimArray::new and
+   DimArray::get_linear_index as translated statement by statement from the
+   source text on this run (usize arithmetic; an unchecked operation that
+   overflows is UPanic).  The translated constructor never panics and is the
+   model's array_create_value for EVERY list of subscripts; every array it
+   builds has dimensions >= 1 whose product is within the cap; and on every
+   such array, with ANY subscripts, the unchecked `+=` / `*=` of the translated
+   get_linear_index never overflow, its only error is BAD SUBSCRIPT, its value
+   is the model's, and the index it returns lies inside the cells (so
+   `self.values[linear_index]` in DimArray::get / set is in bounds). *)
+Theorem C16_code_new : forall name mi,
+  rs_dimarray_new mi <> UPanic /\ array_create_value name mi = rs_new_to_res name (rs_dimarray_new mi).
+Proof. exact rs_dimarray_new_is_model. Qed.
+Theorem C16_code_created_shape : forall name mi a,
+  array_create_value name mi = Ok a -> shape_ok (ar_dims a) /\ ar_dims a = dim_sizes mi.
+Proof. exact created_shape_ok. Qed.
+Theorem C16_code_index : forall a indices, shape_ok (ar_dims a) ->
+  rs_dimarray_get_linear_index (ar_dims a) indices <> UPanic /\
+  (forall e, rs_dimarray_get_linear_index (ar_dims a) indices = UErr e -> e = "BadSubscript"%string) /\
+  array_linear_index a indices = rs_index_to_res (rs_dimarray_get_linear_index (ar_dims a) indices).
+Proof. exact rs_get_linear_index_is_model. Qed.
+Theorem C16_code_index_in_cells : forall a indices i, shape_ok (ar_dims a) ->
+  N.of_nat (length (ar_cells a)) = dims_product (ar_dims a) ->
+  rs_dimarray_get_linear_index (ar_dims a) indices = UOk i -> (i < N.of_nat (length (ar_cells a)))%N.
+Proof. exact rs_index_in_cells. Qed.
+Check C16_code_index : forall a indices, shape_ok (ar_dims a) ->
+  rs_dimarray_get_linear_index (ar_dims a) indices <> UPanic /\
+  (forall e, rs_dimarray_get_linear_index (ar_dims a) indices = UErr e -> e = "BadSubscript"%string) /\
+  array_linear_index a indices = rs_index_to_res (rs_dimarray_get_linear_index (ar_dims a) indices).
+
+(* non-vacuity: DIM A(99,99) on the translated code (10000 cells, accepted), its last cell, DIM A(100,99) (10100,
+   rejected), a huge subscript (checked_mul fails: the error, not a panic), and — why the shape hypothesis is
+   there — dimensions DimArray::new can never produce on which the translated index computation does panic *)
+Example C16_code_examples :
+  rs_dimarray_new [99; 99]%N = UOk ([100; 100]%N, 10000%N) /\
+  rs_dimarray_get_linear_index [100; 100]%N [99; 99]%N = UOk 9999%N /\
+  rs_dimarray_get_linear_index [100; 100]%N [99; 100]%N = UErr "BadSubscript" /\
+  rs_dimarray_new [100; 99]%N = UErr "ArrayTooLarge" /\
+  rs_dimarray_new [18446744073709551615]%N = UErr "ArrayTooLarge" /\
+  rs_dimarray_new [4294967296; 4294967296; 3]%N = UErr "ArrayTooLarge" /\
+  rs_dimarray_get_linear_index [4294967296; 4294967296; 0]%N [1; 1; 0]%N = UPanic.
+Proof. vm_compute. repeat split. Qed.
+
 Print Assumptions C16_inv.
 Print Assumptions C16_step.
 Print Assumptions C16_statement.
@@ -81,3 +125,7 @@ Print Assumptions C16_dim_cap.
 Print Assumptions C16_dim_fits.
 Print Assumptions C16_no_accumulation.
 Print Assumptions C16_loops_le_variables.
+Print Assumptions C16_code_new.
+Print Assumptions C16_code_created_shape.
+Print Assumptions C16_code_index.
+Print Assumptions C16_code_index_in_cells.
